@@ -11,6 +11,8 @@ import BexprGen.GoGrammar
 import BexprGen.GoActions
 import BexprGen.PegGrammar
 import BexprGen.PegActions
+import Bexpr.Peg.PinnedGrammar
+import Bexpr.Peg.PinnedActions
 
 namespace Bexpr.Driver
 open Bexpr Bexpr.Go Bexpr.Peg Bexpr.Eval Bexpr.Wire
@@ -21,6 +23,9 @@ def goGrammar : Grammar := BexprGen.GoGrammar.grammar
 def pegSem := semTable BexprGen.PegActions.actions
 def pegEnv : Env := envOf pegSem
 def pegGrammar : Grammar := BexprGen.PegGrammar.grammar
+def pinSem := semTable Bexpr.Peg.Pinned.Actions.actions
+def pinEnv : Env := envOf pinSem
+def pinGrammar : Grammar := Bexpr.Peg.Pinned.Grammar.grammar
 
 def errToString (e : PErr) : String :=
   match e.kind with
@@ -176,6 +181,10 @@ def handle (line : String) : String :=
   | "parse" :: max :: [h] =>
     match max.toNat?, hexAtom? h with
     | some m, some b => parseLine goEnv goGrammar m b
+    | _, _ => "bad"
+  | "parsepin" :: max :: [h] =>
+    match max.toNat?, hexAtom? h with
+    | some m, some b => parseLine pinEnv pinGrammar m b
     | _, _ => "bad"
   | "parsepeg" :: max :: [h] =>
     match max.toNat?, hexAtom? h with
